@@ -64,7 +64,7 @@ def expr(e):
         if e.value is None:
             return ".none"
         if isinstance(e.value, bool):
-            raise Untranslatable("bool constant")
+            return "(.boolc %s)" % ("true" if e.value else "false")
         if isinstance(e.value, int):
             return "(.int (%d))" % e.value
         if isinstance(e.value, str):
@@ -160,6 +160,8 @@ def expr(e):
         if sl.lower is None and sl.upper is None and isinstance(sl.step, ast.UnaryOp) \
                 and isinstance(sl.step.op, ast.USub) and is_intconst(sl.step.operand) and sl.step.operand.value == 1:
             return "(.rev %s)" % expr(e.value)                   # x[::-1]
+        if sl.step is None and sl.lower is not None and sl.upper is not None:
+            return "(.slice2 %s %s %s)" % (expr(e.value), expr(sl.lower), expr(sl.upper))   # x[a:b]
         raise Untranslatable("slice subscript")
     if isinstance(e, ast.Subscript) and isinstance(e.value, ast.Dict):
         d = e.value
@@ -167,6 +169,11 @@ def expr(e):
             tbl = ", ".join("(%s, %s)" % (codes(k.value), codes(v.value)) for k, v in zip(d.keys, d.values))
             return "(.strMap [%s] %s)" % (tbl, expr(e.slice))
         raise Untranslatable("dict literal")
+    if isinstance(e, ast.Subscript) and is_intconst(e.slice) and e.slice.value == 0 \
+            and isinstance(e.value, ast.Call) and ast.unparse(e.value.func) in ("numpy.frombuffer", "np.frombuffer") \
+            and len(e.value.args) == 1 and len(e.value.keywords) == 1 and e.value.keywords[0].arg == "dtype" \
+            and is_strconst(e.value.keywords[0].value) and e.value.keywords[0].value.value == ">u4":
+        return "(.beU32 %s)" % expr(e.value.args[0])          # numpy.frombuffer(b, dtype=">u4")[0]
     if isinstance(e, ast.Subscript) and isinstance(e.slice, ast.Constant) and isinstance(e.slice.value, int) \
             and e.slice.value >= 0:
         return "(.idx %s %d)" % (expr(e.value), e.slice.value)
@@ -232,7 +239,18 @@ def stmt(s, sink, tail=False):
             and s.value.func.attr == "append" and isinstance(s.value.func.value, ast.Name) \
             and s.value.func.value.id == sink and len(s.value.args) == 1:
         # `out.append(e)` of the enclosing loop: the item produced for this axis
-        return "(.assign %s %s)" % (lstr("@item"), expr(s.value.args[0]))
+        a0 = s.value.args[0]
+        if isinstance(a0, ast.Tuple):
+            parts = ["(.assign %s %s)" % (lstr("@item%d" % i), expr(x)) for i, x in enumerate(a0.elts)]
+            out = parts[-1]
+            for q in reversed(parts[:-1]):
+                out = "(.seq %s %s)" % (q, out)
+            return out
+        return "(.assign %s %s)" % (lstr("@item"), expr(a0))
+    if isinstance(s, ast.Break):
+        if not tail:
+            raise Untranslatable("break that is not the last thing the loop body does")
+        return "(.assign %s (.boolc true))" % lstr("@break")
     raise Untranslatable(ast.dump(s)[:80])
 
 
@@ -343,6 +361,16 @@ def generate_dap(repo):
     def s2b_fields():
         return assignments(find_function(dap, "stream2bytearray"), ["chunk_size", "chunk_type"])
 
+    def s2b_body():
+        fn = find_function(dap, "stream2bytearray")
+        lp = [n for n in fn.body if isinstance(n, ast.While)]
+        if len(lp) != 1 or ast.unparse(lp[0].test) != "offset < len(data)":
+            raise Untranslatable("expected one `while offset < len(data):`")
+        # the call is set aside: `last` is an input of the block (its value is tied by src_decode_chunktype,
+        # its argument by the exact text required here)
+        body = drop_statements(lp[0].body, ["last, _, _ = decode_chunktype(chunk_type)"])
+        return "(.seq (.assign %s (.boolc false)) %s)" % (lstr("@break"), stmts(body, "chunk_positions", tail=True))
+
     def dmr_fields():
         return assignments(find_method(dap, "UNPACKDAP4DATA", "safe_dmr_and_data"), ["dmr_length", "chunk_type"])
 
@@ -355,6 +383,9 @@ def generate_dap(repo):
                    chunktype),
              block("src_stream2bytearray_fields", "handlers/dap.py stream2bytearray: `chunk_size = …; chunk_type = …` "
                    "computed from `chunk_header`", s2b_fields),
+             block("src_stream2bytearray_turn", "handlers/dap.py stream2bytearray: one turn of `while offset < len(data)`; "
+                   "`chunk_positions.append((a, b))` is `@item0 = a; @item1 = b`, `break` is `@break = True` (initially "
+                   "False); `last, _, _ = decode_chunktype(chunk_type)` is set aside (`last` is an input)", s2b_body),
              block("src_safe_dmr_and_data_fields", "handlers/dap.py UNPACKDAP4DATA.safe_dmr_and_data: "
                    "`dmr_length = …; chunk_type = …` computed from `chunk_header`", dmr_fields),
              block("src_get_endianness_fields", "handlers/dap.py get_endianness: `chunk_type = …` computed from "
